@@ -382,3 +382,28 @@ Proof.
   { destruct (Qle_bool ri p) eqn:E2; auto. apply Qle_bool_iff in E2. lra. }
   rewrite K, Hp. field.
 Qed.
+
+(* ---- boundary momenta: 0 freezes the running statistics, 1 replaces them by the batch statistics.
+   (momentum = Some 0 is NOT momentum = None: the model branches on `is None`, as the code does.) ---- *)
+Lemma momentum_boundaries o s x m v f :
+  training s = true -> track o = true -> momentum o = Some f ->
+  rmean s = Some m -> rvar s = Some v ->
+  length m = length x -> length v = length x -> (2 <= nsamp x)%nat ->
+  exists rm' rv',
+    forward o s x = Done {| rmean := Some rm'; rvar := Some rv'; nbt := S (nbt s); training := true |}
+                         (normalise x (batch_means x) (batch_vars x) (eps o)) /\
+    forall c xs, nth_error x c = Some xs ->
+      (forall old, nth_error m c = Some old ->
+         exists new, nth_error rm' c = Some new /\ (f == 0 -> new == old) /\ (f == 1 -> new == mean xs)) /\
+      (forall old, nth_error v c = Some old ->
+         exists new, nth_error rv' c = Some new /\ (f == 0 -> new == old) /\
+                     (f == 1 -> new == var_b xs * (qnat (nsamp x) / (qnat (nsamp x) - 1)))).
+Proof.
+  intros Ht Htr Hmo Hm Hv Lm Lv Hn.
+  destruct (train_updates_once_full o s x m v f Ht Htr Hmo Hm Hv Lm Lv Hn) as (rm' & rv' & Hf & _ & _ & H).
+  exists rm', rv'. split; [exact Hf|]. intros c xs Hc. destruct (H c xs Hc) as [A B]. split.
+  - intros old Ho. destruct (A old Ho) as (new & Hn' & E). exists new. split; [exact Hn'|].
+    split; intro F; rewrite E, F; ring.
+  - intros old Ho. destruct (B old Ho) as (new & Hn' & E). exists new. split; [exact Hn'|].
+    split; intro F; rewrite E, F; ring.
+Qed.
